@@ -981,11 +981,11 @@ fn job(seed: u64, i: u64, max_threads: usize, runs_per_job: usize) -> (JobOut, O
                 let v = Violation::new(PROP, &class, format!("{} (run fell back to free-running mode: foreign blocking; schedule not replayable)", detail), scenario_to_json(&sc, &r.handoffs, sched_seed));
                 return (out, Some(v));
             }
-            let (msc, mh) = if class == "deadlock" { (sc.clone(), r.handoffs.clone()) } else { minimise(&sc, &r.handoffs, &class) };
-            let detail = run_forced(&msc, &mh).map(|(_, d)| d).unwrap_or_else(|| {
-                format!("{} (did not recur when the recorded schedule was replayed at once in this process: the outcome depends on state outside the simulator, e.g. allocator addresses or thread-local caches left by earlier runs)", detail)
-            });
-            return (out, Some(Violation::new(PROP, &class, detail, scenario_to_json(&msc, &mh, sched_seed))));
+            // Reported as recorded. Minimisation happens later, in `run`, once every other
+            // simulation of the batch has stopped: while 16 simulations share the process, a
+            // regression that introduces process-wide state lets them disturb each other, and a
+            // schedule shrunk under such interference need not fail on its own.
+            return (out, Some(Violation::new(PROP, &class, detail, scenario_to_json(&sc, &r.handoffs, sched_seed))));
         }
     }
     (out, None)
@@ -1056,9 +1056,25 @@ pub fn run(opts: &Opts) -> i32 {
         let alone = replay(&v.replay).map_or(false, |(c, _)| c == v.class);
         println!(
             "replay with every other simulation stopped: {}",
-            if alone { "reproduced" } else { "did not recur (outcome depends on process-wide state outside the simulator)" }
+            if alone { "reproduced" } else { "did not recur (outcome depends on process-wide state outside the simulator, e.g. other simulations of the batch, allocator addresses, caches left by earlier runs)" }
         );
-        report_violation(v, &path);
+        let mut v = v.clone();
+        let mut path = path;
+        if alone && v.class != "deadlock" {
+            // shrink in quiescence: fewest hand-offs, then fewer operations; keep only what still
+            // fails with the same class, and re-verify the result from its file content
+            if let Some((sc, schedule, sseed)) = scenario_from_json(&v.replay) {
+                let (msc, mh) = minimise(&sc, &schedule, &v.class);
+                let small = scenario_to_json(&msc, &mh, sseed);
+                if let Some((c, d)) = replay(&small) {
+                    if c == v.class {
+                        v = Violation::new(PROP, &c, d, small);
+                        path = write_replay(&v, derive(seed, *i));
+                    }
+                }
+            }
+        }
+        report_violation(&v, &path);
         code = 1;
     }
     if samples.is_empty() {
